@@ -3,11 +3,12 @@
    the ontology-level properties.  The harness builds the same world with the
    real crate and prints the same observation. *)
 From HpoV Require Import Gen.Consts Model.Base Model.Group Model.Onto Model.F32 Model.IC
-  Model.Query Model.Dump Model.Script Model.Binary Model.SubOnt.
+  Model.Query Model.Dump Model.Script Model.Binary Model.SubOnt Model.Text.
 
 Inductive world :=
 | WBuilder (s : script)
 | WBytes (b : list N)
+| WJax (transitive : bool) (obo genes hpoa : list N)   (* from_standard / from_standard_transitive *)
 | WSub (w : world) (root : N) (leaves : list N).
 
 (* the f32::ln oracle table travels with the case *)
@@ -20,6 +21,12 @@ Fixpoint build_world (tbl : list (N * N)) (w : world) : res (list N * res onto) 
   | WBuilder s => run_script (ic32 (table_oracle tbl)) s
   | WBytes b =>
       match decode (ic32 (table_oracle tbl)) b with
+      | Panic => Panic
+      | Fuel => Fuel
+      | r => Ok ([], r)
+      end
+  | WJax tr obo genes hpoa =>
+      match load_jax (ic32 (table_oracle tbl)) tr obo genes hpoa with
       | Panic => Panic
       | Fuel => Fuel
       | r => Ok ([], r)
